@@ -168,9 +168,9 @@ def frame_jobs(bindir, prop, tier, seed, faults):
 meta("C05", level="exploration", rule="rule F1 (every write is whole pending lines in order, <= capacity, or the oversize metric alone without terminator); " + FRAME_RULE,
      assumptions=FRAME_ASSUME, exhaustive_scope="W1 op-sequence enumeration within the stated small scope (the random / spy / delegate / socket parts are sampled)",
      min_evaluations=20000, must_observe={"underlying_write_attempts": 20000, "enumerated_runs": 10000})
-meta("C06", level="exploration", rule="rule F2 (Ok(n) => n == len; in-order exactly-once conservation; flush Ok leaves nothing, second flush writes nothing; nothing lost at drop; oversize written in its own emit; flush delegation through client and queuing sink); the two clauses 'a flush that returns Ok leaves nothing buffered' and 'a dropped sink has written what it accepted' are also judged on the fault-injected histories of the C07 workload (all fault assignments, random bursts, full spy channel, scripted errno); " + FRAME_RULE,
+meta("C06", level="exploration", rule="rule F2 (Ok(n) => n == len; in-order exactly-once conservation; flush Ok leaves nothing, second flush writes nothing; nothing lost at drop; oversize written in its own emit; flush delegation through client and queuing sink); the two clauses 'a flush that returns Ok leaves nothing buffered' and 'a dropped sink has written what it accepted' are also judged on the fault-injected histories of the C07 workload (all fault assignments, random bursts, full spy channel, scripted errno); ; delegate runs also flush while the queue's thread holds a taken metric it has not handed over yet; slow-server histories on a blocking Unix socket (receive queue full, server drains with pauses): no send fails and everything arrives, incl. the final flush at drop" + FRAME_RULE,
      assumptions=FRAME_ASSUME, exhaustive_scope="W1 op-sequence enumeration within the stated small scope (the random / spy / delegate / socket parts are sampled)",
-     min_evaluations=20000, must_observe={"metrics_accepted": 20000, "enumerated_runs": 10000, "flush_through_queuing_sink_histories": 10, "flush_through_client_histories": 10})
+     min_evaluations=20000, must_observe={"metrics_accepted": 20000, "enumerated_runs": 10000, "flush_through_queuing_sink_histories": 10, "flush_through_client_histories": 10, "slow_server_histories": 20, "flushes_while_the_queue_thread_held_a_taken_metric": 50})
 meta("C19", level="exploration", rule="rule F4 (writes happen only when the next line does not fit in the remaining space - then ALL pending lines go in one datagram -, on the bypass, on flush/drop with data pending, or as the exact-fill write; a line that still fits never triggers a write); " + FRAME_RULE,
      assumptions=FRAME_ASSUME, exhaustive_scope="W1 op-sequence enumeration within the stated small scope (the random / spy / delegate / socket parts are sampled)",
      min_evaluations=20000, must_observe={"datagrams_written": 20000, "enumerated_runs": 10000})
@@ -270,9 +270,9 @@ meta("C09", level="exploration",
      rule="rule R4: after the last handle is dropped every accepted metric is still handed over, then SINK_DROP is observed (the wrapped sink is released), then no library thread is left; "
           "drop returns while the gate is closed and never unwinds. Drop matrix: capacities unbounded/0/1/2/3/8 x EVERY occupancy 0..=capacity at the last drop (incl. completely full) x "
           "worker busy/idle x every ok/err/panic pattern of the remaining metrics x clone dropped first; forced windows C1-C7 park the worker just before it waits (also with entries queued behind its back) and the dropper between "
-          "'flag set' and 'wake-up'; drop races: the last 2-4 handles are dropped at the same moment on as many threads (spin barrier), with 0-3 metrics queued; " + Q_SEQ + Q_CONC,
+          "'flag set' and 'wake-up'; drop races: the last 2-4 handles are dropped at the same moment on as many threads (spin barrier), with 0-3 metrics queued, some of the handles dropped by a guard while their thread unwinds from a panic; histories without caller-side flushes run against a wrapped sink whose flush() waits for an emit in progress like the library's buffered sinks; " + Q_SEQ + Q_CONC,
      assumptions=Q_ASSUME, exhaustive_scope="the drop matrix and the sequential op-sequence enumeration up to the stated bounds",
-     min_evaluations=2000, must_observe={"sink_drops_observed": 2000, "last_drop_with_full_queue": 20, "last_drop_while_sink_blocked": 100, "forced_stop_windows": 20, "concurrent_last_drop_races": 1000, "entries_queued_behind_parked_worker": 10})
+     min_evaluations=2000, must_observe={"sink_drops_observed": 2000, "last_drop_with_full_queue": 20, "last_drop_while_sink_blocked": 100, "forced_stop_windows": 20, "concurrent_last_drop_races": 1000, "entries_queued_behind_parked_worker": 10, "handles_dropped_during_unwinding": 50})
 meta("C10", level="exploration",
      rule="rule R5: sequential and exact with the worker parked inside the gated sink: emit returns Ok iff accepted - handed_over < capacity (distinguishes capacity c from c+-1), always Ok when "
           "unbounded, Ok(n) => n == len, emit returns while the gate is closed (a call that blocks for good is detected by the calling thread's /proc state), ENTER never on a caller thread, no "
@@ -298,9 +298,9 @@ meta("C15", level="exploration",
 meta("C16", level="fault_enumeration",
      rule="rule R8: EVERY {ok, err(kind a), err(kind b)} pattern over n <= N queued metrics (N=7 quick, 10 thorough), with and without with_error_handler, random error-heavy sequential and "
           "concurrent histories mixed with panics; each EXIT(err e) is followed - before the next ENTER - by exactly one HANDLER(e) (identity by io::ErrorKind + unique message) on the same "
-          "(library) thread, no HANDLER without such an EXIT, and without a handler deliveries simply continue; " + Q_CONC,
+          "(library) thread, no HANDLER without such an EXIT, and without a handler deliveries simply continue; forced window D parks the worker after it took an entry, queues failing metrics behind it and lets a caller flush / read stats and counters: neither the wrapped sink nor the handler may run on the caller's thread; " + Q_CONC,
      assumptions=Q_ASSUME, exhaustive_scope="all ok/err patterns up to the stated length, with and without handler",
-     min_evaluations=1000, must_observe={"scripted_errors": 1000, "handler_calls": 500})
+     min_evaluations=1000, must_observe={"scripted_errors": 1000, "handler_calls": 500, "forced_window_D_caller_calls": 4})
 
 
 @plan("C08")
@@ -341,12 +341,12 @@ meta("C18", level="exploration",
           "operation intervals (one winner, same fully constructed Arc everywhere, winner not preceded by a completed set, nothing visible before any set, visible after the winning set "
           "completed, payload dropped exactly once) and by a FastTrack-style vector-clock race check using the orderings actually passed (release store/RMW publishes, relaxed store resets, "
           "RMW continues a release sequence, failed CAS = load with the failure ordering). Observer 2: Miri (-Zmiri-many-seeds, weak-memory emulation, data-race detector, UB checks on the "
-          "cell) on holder_stress with hooks off. Observer 3 (thorough): ThreadSanitizer build of holder_stress. distinct = (configuration, schedule) pairs",
+          "cell) on holder_stress with hooks off; holders are built alternately with new() and default(). Observer 3 (thorough): ThreadSanitizer build of holder_stress. distinct = (configuration, schedule) pairs",
      assumptions=["DRF argument: only one atomic location exists, so if no enumerated SC interleaving has a happens-before race, weak-memory executions of these configurations add no behaviour; Miri's weak-memory emulation is the independent check of this",
                   "configurations with >= 4 threads or >= 3 operations per thread are not explored; configurations whose interleavings exceed the per-configuration schedule cap are truncated (reported, exhaustive then false)",
                   "if state.rs synchronises through a primitive the shim does not route, the vector-clock observer switches itself off and Miri/TSan decide race freedom"],
      exhaustive_scope="all SC interleavings of the listed configurations (only when no configuration was truncated)",
-     min_evaluations=2000, must_observe={"cell_accesses_checked": 1000, "hb_edges_established": 500, "schedules_with_reader_overlapping_LOADING": 100, "configurations_explored": 30, "miri_seeds_completed": 8})
+     min_evaluations=2000, must_observe={"cell_accesses_checked": 1000, "hb_edges_established": 500, "schedules_with_reader_overlapping_LOADING": 100, "configurations_explored": 30, "miri_seeds_completed": 8, "schedules_on_default_constructed_holder": 500})
 
 
 def miri_job(name, prop, binname, prog_args, seeds, seed, timeout, extra_flags="", ok_marker=" ok ", fail_marker="ORACLE-FAILED", what="executions"):
@@ -511,9 +511,9 @@ meta("C13", level="exploration",
           "8-60 KB) - per emit exactly one sendto, payload == the metric's bytes, destination sockaddr == the constructed address/path (first of several resolved addresses; empty list => "
           "InvalidInput), result == bytes sent or the socket's errno (scripted or kernel-made), the datagram received on the addressed socket equals the metric and a decoy socket stays "
           "empty; buffered UDP/Unix sinks (capacities 0,1,8,40,100,512(default),1432,9000): the framing model F1 with a single newline terminator and 'what remains is sent on flush/drop' "
-          "over the interposer log. distinct = (sink, blocking mode, length class, result) and outcome-window signatures for the buffered sinks",
+          "over the interposer log, capacities up to 100000 incl. UDP above one datagram; Unix sinks also addressed by a relative path from a working directory whose absolute form exceeds sun_path; slow-server histories (blocking Unix socket, receive queue full, server draining with pauses: no send may fail, the server receives exactly the bytes sent, incl. the final flush at drop). distinct = (sink, blocking mode, length class, result) and outcome-window signatures for the buffered sinks",
      assumptions=SOCK_ASSUME, min_evaluations=50,
-     must_observe={"unbuffered_emits_checked": 1000, "datagrams_received_and_compared": 500, "scripted_socket_errors_checked": 50, "kernel_socket_errors_checked": 5, "sendto_attempts_observed": 1000, "empty_address_list_rejected": 3})
+     must_observe={"unbuffered_emits_checked": 1000, "datagrams_received_and_compared": 500, "scripted_socket_errors_checked": 50, "kernel_socket_errors_checked": 5, "sendto_attempts_observed": 1000, "empty_address_list_rejected": 3, "unix_sinks_addressed_by_relative_path": 20, "slow_server_histories": 20})
 meta("C14", level="exploration",
      rule="all four socket sinks; at every quiescent point (all emitting threads joined, and behind a QueuingMetricSink the queue drained) stats() is compared with totals computed from the "
           "interposer log restricted to the sink's socket: packets_sent + packets_dropped == send attempts, packets/bytes sent == accepted datagrams and their sizes, packets/bytes dropped == "
